@@ -57,12 +57,16 @@ def display_small_documents(seed):
                                 eq = '\\begin{%s}\n%s\n\\end{%s}' % (
                                     env, body, env)
                             src = 'Aaa\n' + eq + '\nBbb'
-                            for seqs in (False, True):
+                            for seqs, pack in ((False, 'amsmath'),
+                                               (True, 'amsmath'),
+                                               (False, None), (True, None)):
+                                if pack is None and env == 'align':
+                                    continue    # align needs amsmath
                                 n += 1
                                 try:
                                     got = t2t.tex2txt(src, t2t.Options(
                                         lang=lang, seqs=seqs,
-                                        pack='amsmath'))[0]
+                                        pack=pack))[0]
                                 except Exception as e:      # noqa
                                     if fail(input=src, why=repr(e)):
                                         return _res(n, fails)
